@@ -9,6 +9,7 @@ from opt_einsum import contract
 from tqdm.auto import tqdm
 
 from pgmpy import config
+from pgmpy import _verif
 from pgmpy.factors import factor_product
 from pgmpy.factors.discrete import DiscreteFactor
 from pgmpy.inference import Inference
@@ -209,6 +210,7 @@ class VariableElimination(Inference):
             for variable in phi.variables:
                 working_factors[variable].add((phi, var))
             eliminated_variables.add(var)
+            _verif.emit("VE.Eliminate", var=var, operation=operation, phi=phi)
 
         # Step 4: Prepare variables to be returned.
         final_distribution = set()
